@@ -18,7 +18,7 @@ Clause(ev) ==
      ELSE IF ~r.ok THEN 1
      ELSE IF RefParseText(r.c, ev.fmt) # Expected(v, ev.fmt) THEN 2
      ELSE IF ev.reparsed # [title |-> Expected(v, ev.fmt).title, entries |-> v.entries] THEN 3
-     ELSE IF ImageDetermined(v, ev.fmt, ev.endian) /\ ev.bytes # TextImage(v, ev.fmt, ev.endian) THEN 4
+     ELSE IF ImageDetermined(v, ev.fmt, ev.endian) /\ ev.bytes # TextImage(v, ev.fmt, ev.endian) THEN 4   \* information only
      ELSE 0
 
 Init == i = 1 /\ bad = <<>>
